@@ -92,6 +92,17 @@ CHECKS['C17'] = dict(
          'interval" is checked exactly.',
     design_ref='DESIGN.md section 6 C17', note=TB + '; multiprocessing queues are not scheduled (same IterableQueue code path)')
 
+CHECKS['C09'] = dict(
+    technique='timed TLA+ spec BatchWorker (collector thread, read lock, batch buffer, deadline-bounded consumer, competing workers; '
+              'clock advances only when nothing can move) checked by TLC; TLC trace validation of the real Worker loops under a '
+              'deterministic scheduler with exact virtual time',
+    text='TLC enumerates every arrival schedule (up to 4 inputs, gaps 0..2 ticks, genuine / exception value / preprocess-rejected) x '
+         'batch_size 0..3 x batch_wait_time 0..2 x 1-2 competing workers and checks WellFormed, AtMostOnce, ExactlyOnceAtEnd, Timely '
+         '(call no later than wait after the first element was taken), Immediate (wait 0), deadlock-freedom and termination; '
+         'reachability goals guard against vacuity.  The real _start_batch/_start_single loops run under detsched with arrivals at '
+         'virtual times; what call() received and when is logged and every trace is validated by TLC with times compared exactly.',
+    design_ref='DESIGN.md section 6 C09', note=TB + '; exact virtual time (no tolerance windows)')
+
 ALL = ['C%02d' % i for i in range(1, 21)]
 
 
